@@ -126,8 +126,37 @@ def _wrap_kernels(cls, tag):
     return ok
 
 
+def _cache_all_dispatchers():
+    """On-disk caching for every numba dispatcher found in the modules that hold compiled kernels, whatever they are called
+    (a refactored tree may have renamed or moved them; without the cache every worker process would compile them again)."""
+    try:
+        from numba.core.dispatcher import Dispatcher
+    except Exception:
+        return 0
+    n = 0
+    for modname in ('scared.distinguishers.partitioned', 'scared.distinguishers.template', 'scared.distinguishers.mia', 'scared.ttest'):
+        mod = sys.modules.get(modname)
+        if mod is None:
+            continue
+        objs = list(vars(mod).values())
+        for v in list(vars(mod).values()):
+            if isinstance(v, type) and getattr(v, '__module__', None) == modname:
+                objs.extend(vars(v).values())
+        for o in objs:
+            f = o.__func__ if isinstance(o, staticmethod) else o
+            if isinstance(f, Dispatcher) and not getattr(f, '_verif_cache', False):
+                if _enable_cache(f):
+                    n += 1
+                try:
+                    f._verif_cache = True
+                except Exception:
+                    pass
+    return n
+
+
 def _install_numba_seams():
     from scared.distinguishers import partitioned as P
+    SEAMS['dispatchers_cached'] = _cache_all_dispatchers()
     try:
         orig = P._define_lut_func
         cache = {}
